@@ -282,6 +282,11 @@ fn in_memory_case(ctx: &mut Ctx, r: &mut Rng) {
                 }
             } else {
                 // not demanded by the statement (only that LF/NUL values are refused); recorded as coverage fact
+                if sent.iter().flatten().any(|v| v.contains(&b'\r')) {
+                    // refusing carriage returns as well is what git does since 2.48.1
+                    ctx.count("refused_with_cr");
+                    return;
+                }
                 ctx.count("refused_without_lf_or_nul");
                 ctx.note("refused_without_lf_or_nul_example", json!({"context": witness(&sent), "err": e.to_string()}));
             }
@@ -366,16 +371,16 @@ fn in_memory_case(ctx: &mut Ctx, r: &mut Rng) {
 
 /// the same through a real helper process
 fn helper_case(ctx: &mut Ctx, r: &mut Rng, dir: &std::path::Path) {
-    // only contexts write_to accepts (a refusal leaves the helper child running with a closed pipe: nothing to compare)
+    // only contexts write_to accepts: a refusal inside invoke leaves an un-waited helper child behind whose late start
+    // would truncate the record of a later case
     let case = loop {
         let c = gen_case(r);
-        let f = fields_of(&c.ctx);
-        if !f.iter().flatten().any(|v| v.contains(&b'\n') || v.contains(&0)) {
+        if c.ctx.write_to(std::io::sink()).is_ok() {
             break c;
         }
     };
     let sent = fields_of(&case.ctx);
-    let file = dir.join("stdin.bin");
+    let file = dir.join(format!("stdin-{:016x}.bin", r.next_u64()));
     let _ = std::fs::remove_file(&file);
     let script = format!("!f() {{ exec tee '{}'; }}; f", file.display());
     let mut program = Program::from_custom_definition(script).suppress_stderr();
@@ -393,7 +398,9 @@ fn helper_case(ctx: &mut Ctx, r: &mut Rng, dir: &std::path::Path) {
         ctx.count("helper_refused");
         return;
     }
-    let on_pipe = match std::fs::read(&file) {
+    let on_pipe = std::fs::read(&file);
+    let _ = std::fs::remove_file(&file);
+    let on_pipe = match on_pipe {
         Ok(b) => b,
         Err(e) => {
             ctx.inconclusive(&format!("helper did not record its stdin: {e}"));
